@@ -5,7 +5,7 @@ ROOT = os.path.dirname(os.path.dirname(os.path.abspath(__file__)))
 
 # id -> (engine, technique, level text, level note, design ref)
 CHECKS = {
- "C04": ("inputmc", "exhaustive bounded input enumeration of the real VerifyMerkelProof against a reference definition",
+ "C04": ("inputmc", "exhaustive bounded input enumeration of the real VerifyMerkelProof against a reference definition, plus an acceptance-level pass: genuine and position-aliased deposits of blocks with 1..20000 transactions through the real MsgNewDeposits handler",
          "Every (tree size <= 9 [17 thorough], leaf, claimed position incl. out-of-range ones, path/root/leaf variant) is executed on the real function and compared with the definition of inclusion; exhaustive over the stated alphabet.",
          "SHA-256 trusted; leaves pairwise distinct; tree sizes beyond the bound not covered.", "DESIGN.md section 4 C04"),
 }
@@ -37,7 +37,7 @@ CHECKS.update({
  "C17": ("inputmc", "exhaustive cross product of (key, EVM address, network, version, magic) through the real Query/DepositAddress handler, builders and verifiers; hand-encoded withdrawal addresses and all single-character substitutions through the real decoder and ProcessBridgeRequest",
          "Every handed-out address of the alphabet is checked against the verifier for the full cross product of (key', address') and against the protocol's reference script; every standard address kind of four networks (encoded by hand) and ~15k mutated strings are decoded for every network.",
          "btcd encoders trusted as reference decoder for mutated strings; 11 keys, 6 addresses.", "DESIGN.md section 4 C17"),
- "C20": ("keepermc", "explicit-state BFS to fixpoint over bridge parameter states under the real ProcessBridgeRequest, with deposits verified in every reachable state",
+ "C20": ("keepermc", "explicit-state BFS to fixpoint over bridge parameter states under the real ProcessBridgeRequest, with deposits verified in every reachable state; request lists also inside execution blocks through the real PrepareProposal/ProcessProposal/FinalizeBlock pipeline (differential against the direct keeper call)",
          "All parameter states reachable from three safe corners under requests over a 12-value 64-bit alphabet are enumerated to fixpoint (no depth bound); the bounds invariant and deposit tax/amount/dust conditions are checked in every state.",
          "Parameter values outside the alphabet are not covered; states are materialised by writing Params on a branch.", "DESIGN.md section 4 C20"),
 })
@@ -53,19 +53,19 @@ CHECKS.update({
          "Every history up to the depth bound over the queue-filling menu (incl. abandoned proposal rounds, failing execution-block messages, restarts, gap/rewrite hash batches) is executed through PrepareProposal/ProcessProposal/FinalizeBlock/Commit; the system transactions of every finalised payload are matched against a reference FIFO ledger (caps, consecutive nonces, exactly-once), traces are drained, and 9 payload mutations per node must be rejected.",
          KA_NOTE, "DESIGN.md section 4 C06"),
  "C09": ("chainmc", "depth-bounded tree search with a head monitor on every finalised block plus exhaustive single-fault injection over every engine call of a block",
-         "Every finalised block of every history up to the depth bound is checked by the head monitor; at every node up to the fault depth every placement of one engine fault (6 kinds) on each of the 5 engine calls is executed, aborted blocks are retried (after a real restart when FinalizeBlock failed) and compared with a fault-free replica.",
+         "Every finalised block of every history up to the depth bound is checked by the head monitor; at every node up to the fault depth every placement of one engine fault (7 kinds, incl. a transport-level outage of the engine) on each of the 5 engine calls is executed, aborted blocks are retried (after a real restart when FinalizeBlock failed) and compared with a fault-free replica.",
          KA_NOTE + " Pairs of faults are not explored.", "DESIGN.md section 4 C09"),
 })
 CHECKS.update({
  "C02": ("chainmc", "depth-bounded tree search over block histories of the real ABCI application with a vote pool (every vote produced earlier is re-presented in several ways) against a reference sequence counter / randao chain and a differential empty-block oracle",
          "Every history up to the depth bound over fresh voted messages (block hashes, new key, process withdrawal, consolidation), failing-after-verification messages, non-voted messages, elections, membership requests, chained and same-sequence pairs, and replays (unchanged, context rewritten, other payload, other action) is executed through the real block pipeline; the sequence grows by exactly the number of successful voted transactions, the randao chains over their signatures, replays are never accepted, and failed transactions leave relayer/bridge stores equal to the same block without them.",
          KA_NOTE, "DESIGN.md section 4 C02"),
- "C08": ("chainmc", "depth-bounded tree search over block histories; at every state: real PrepareProposal over 7 mempool classes checked by a second replica, and 26 single mutations of a well-formed proposal through ProcessProposal/FinalizeBlock",
+ "C08": ("chainmc", "depth-bounded tree search over block histories; at every state: real PrepareProposal over 8 mempool classes checked by a second replica, execution blocks up to the consensus block size and request bursts up to the engine's gas limit, non-canonically encoded proposals followed by honest ones, a chain whose validator account is the relayer proposer, and 37 single mutations of a well-formed proposal through ProcessProposal/FinalizeBlock",
          "At every state of the search the real PrepareProposal output (mempool classes incl. 20 valid txs, stale and foreign-signer txs) must be accepted by an independent replica, stay within 16 txs and execute its block message successfully; every single mutation of a well-formed proposal from a 26-entry menu must be rejected and must not move the head when finalised anyway.",
          KA_NOTE + " Two validators; clocks of validators are not behind the proposer's.", "DESIGN.md section 4 C08"),
 })
 CHECKS.update({
- "C10": ("inputmc", "exhaustive product of (registered message type, signer class, memo, timeout height, signature class, execution mode, election state) plus compositions, delivered to the real application and compared with an admission predicate; differential state check for foreign messages",
+ "C10": ("inputmc", "exhaustive product of (registered message type, signer class, memo, timeout height, signature class, execution mode, relayer state: before/after an election, after the proposer's removal, validator account = relayer proposer) plus compositions, delivered to the real application and compared with an admission predicate; differential state check for foreign messages",
          "Every sdk.Msg implementation registered in the interface registry (discovered at run time) is delivered in every mode (CheckTx, ReCheck, PrepareProposal via mempool, ProcessProposal, FinalizeBlock) for every signer/memo/timeout/signature class before and after a relayer election; admission must equal the predicate written from the statement and foreign messages must leave all stores equal to the same block without them.",
          KA_NOTE + " CheckTx is exercised on an App that has committed a block.", "DESIGN.md section 4 C10"),
  "C18": ("chainmc", "depth-bounded tree search over block histories; in every visited state the real export is imported into a fresh App and compared (re-export, store dumps, invariants, first block)",
@@ -78,11 +78,11 @@ CHECKS.update({
          KA_NOTE + " Proposals rejected by ProcessProposal are not forced into FinalizeBlock.", "DESIGN.md section 4 C19"),
 })
 CHECKS.update({
- "C07": ("chainmc", "replica comparison (second proposal round, restart before/after Commit, shifted wall clock) plus exhaustive enumeration of Go map-iteration starts through a runtime hook (instrumented build), on scenario blocks incl. adversarial request batches",
+ "C07": ("chainmc", "replica comparison (second proposal round, restart before/after Commit, shifted wall clocks incl. a clock behind everything on a node that only finalises, twin histories on one instance vs an instance per block, worker processes with other node-local configuration: telemetry on / other operator settings) plus exhaustive enumeration of Go map-iteration starts through a runtime hook (instrumented build), on scenario blocks incl. adversarial request batches",
          "For every scenario block the same transactions are executed on differently treated replicas of the real application and must agree on app hash, tx results incl. gas, validator-update set, engine calls, store dump and next-block hash; with a go build -overlay of runtime/map.go every map iteration of the FinalizeBlock goroutine is enumerated: all combinations of starts at range sites in goat packages, every single deviation at sites in dependencies.",
          KA_NOTE + " Overlay patches runtime/map.go and time/time.go of the Go toolchain in the checking build only; torn writes inside Commit are out of scope.", "DESIGN.md section 4 C07"),
 })
-t=list(CHECKS["C08"]); t[0]="chainmc"; t[1]="tree search with real PrepareProposal checked by a second replica and 26 proposal mutations; preemption-bounded exhaustive schedule exploration (controlled scheduler over the errgroup goroutines at store-operation granularity, instrumented build); separate free-running -race pass"
+t=list(CHECKS["C08"]); t[0]="chainmc"; t[1]="tree search with real PrepareProposal checked by a second replica (mempool classes, execution-block sizes, request bursts, shared proposer account), 37 proposal mutations and non-canonical encodings; preemption-bounded exhaustive schedule exploration (controlled scheduler over the errgroup goroutines at store-operation granularity, instrumented build); separate free-running -race pass"
 t[2]=t[2]+" Every schedule with at most 2 (thorough 3) preemptions of the two goroutines of PrepareProposalHandler and verifyEthBlockProposal is executed for 7 state/mempool/proposal classes with the same oracles; data races are reported by the Go race detector on a free-running pass over the same harness bodies (scheduler hand-offs would blind it)."
 CHECKS["C08"]=tuple(t)
 PENDING = {}
